@@ -160,7 +160,7 @@ std::string run_exhaustive(const Scenario &s, CaseInfo &info) {
     for (uint64_t c = 0; c < cnt; ++c) { std::vector<int> q(len); uint64_t v = c; for (int i = 0; i < len; ++i) { q[i] = (int)(v & 3); v >>= 2; } seqs.push_back(std::move(q)); }
   }
 
-  uint64_t j = 0, configs = 0, cases = 0, nt = 0;
+  uint64_t j = 0, configs = 0, cases = 0, nt = 0, teardown_running = 0;
   Flags acc_any;
   for (const Part &p : parts) {
     for (uint64_t local = 0; local < p.total; ++local, ++j) {
@@ -183,6 +183,7 @@ std::string run_exhaustive(const Scenario &s, CaseInfo &info) {
         if (f.req_fail_after_ok_sibling_start) acc_any.req_fail_after_ok_sibling_start = true;
         if (f.opt_halfway_init) acc_any.opt_halfway_init = true;
         if (f.opt_halfway_start) acc_any.opt_halfway_start = true;
+        if (f.teardown_of_running_tree) ++teardown_running;
         if (!err.empty()) {
           stats().counters["enumerated_cases"] += cases;
           return "enumerated case [" + case_text(t, q.data(), q.size(), "; ") + "] " + err;
@@ -193,6 +194,7 @@ std::string run_exhaustive(const Scenario &s, CaseInfo &info) {
   stats().counters["enumerated_cases"] += cases;
   stats().counters["enumerated_tree_configs"] += configs;
   stats().counters["enumerated_nontrivial_cases"] += nt;
+  stats().counters["enumerated_cleanup_of_running_tree_cases"] += teardown_running;
   (void)j;
   static char label[96];
   snprintf(label, sizeof label, "space:nodes<=%d_x3outcomes+nodes<=%d_x6outcomes,calls<=%d", maxnodes, maxnodes - 1, maxlen);
